@@ -1,6 +1,7 @@
 """Unit R — C06: the restriction check of helpers_content.rs::restrictions."""
 from __future__ import annotations
 import os
+import re
 from ..core import Unit, VERIF, read_sections, trusted_chunk
 from ..splice import Out
 from .hc import HelpersContent, C
@@ -19,6 +20,9 @@ def prelude(out: Out, std_sections, dep_sections=()):
     return names
 
 
+ON_DEMAND = [('stdspec-saturating', r'\.saturating_(add|sub)\s*\(')]
+
+
 class UnitR(Unit):
     name = 'R'
     props = ('C06',)
@@ -26,20 +30,25 @@ class UnitR(Unit):
     def build(self, repo, probe=False):
         out = Out()
         out.spec(HEAD)
-        self._trusted = prelude(out, ['ax-rc', 'ax-parse', 'ax-string-eq', 'ax-tryfrom', 'ax-from-unsigned', 'stdspec-parse', 'stdspec-chars', 'stdspec-bytelen', 'ax-bytelen', 'stdspec-contains'],
-                                [('dep_reqwest.rs', ['reqwest-error'])])
         hc = HelpersContent(repo)
+        # contracts of std methods the current tree does not call are added only when the extracted text
+        # starts calling them (they are then listed in the trusted base of that run)
+        on_demand = [sec for sec, pat in ON_DEMAND if re.search(pat, hc.src)]
+        self._trusted = prelude(out, ['ax-rc', 'ax-parse', 'ax-string-eq', 'ax-tryfrom', 'ax-from-unsigned', 'stdspec-parse', 'stdspec-chars', 'stdspec-bytelen', 'ax-bytelen', 'stdspec-contains'] + on_demand,
+                                [('dep_reqwest.rs', ['reqwest-error'])])
         hc.emit_error(out, probe, record=False)
         self.types = hc.emit_restrictions(out, probe)
         out.spec(TAIL)
         return out
 
     def props_of(self, ob):
-        # the Option / Vec delegation impls also carry C07 ("inside optional or repeated members, at any depth")
+        # C07 ("fails iff some value violates a declared facet, at any depth, inside optional or repeated members") is the
+        # composition of the emitted delegation (L3) with these leaf checks, so the leaf clauses carry C07 as well.  Not
+        # `#full-range`: numerals beyond i128 in a String carrier with a numeric facet cannot come from a supported schema.
         deleg = ob.startswith('restrictions::Vec<C>::') or ob.startswith('restrictions::Option<C>::')
         if ob.endswith('#safety'):
             return ['C06', 'C13'] + (['C07'] if deleg else [])
-        return ['C06'] + (['C07'] if deleg else [])
+        return ['C06'] + ([] if ob.endswith('#full-range') else ['C07'])
 
     def trusted_base(self):
         return list(self._trusted)
